@@ -229,3 +229,66 @@ def texts_equal(chk, pc, a, b):
         if m:
             return (conds[0][0], m)
     return None
+
+
+# ---- structural comparison of (concrete) value trees, e.g. two results of the lexer -----------------------------
+def values_differ(p, a, b, ignore=('comments',), path=''):
+    """None if equal; else a short description of the first difference.  Fields named in `ignore` are skipped;
+    parser positions (nom Input values) are not part of a parse result and are skipped when both sides are Inputs."""
+    if isinstance(a, (Lazy, LazyVec)) or isinstance(b, (Lazy, LazyVec)):
+        return f"{path}: lazy value"
+    if type(a) is not type(b):
+        if isinstance(a, (StringV, StrRef)) and isinstance(b, (StringV, StrRef)):
+            pass
+        else:
+            return f"{path}: {type(a).__name__} vs {type(b).__name__}"
+    if isinstance(a, Adt):
+        if a.ty != b.ty or a.variant != b.variant:
+            return f"{path}: variant {p.variant_name(a) if a.ty == b.ty else a.ty} vs {p.variant_name(b) if a.ty == b.ty else b.ty}"
+        t = p.ty(a.ty)
+        names = None
+        if t.get('adt') and a.variant < len(t['adt']['variants']):
+            names = [f['name'] for f in t['adt']['variants'][a.variant]['fields']]
+        if t.get('adt', {}).get('name', '').endswith('input::Input'):
+            return None
+        for i, (x, y) in enumerate(zip(a.fields, b.fields)):
+            nm = names[i] if names and i < len(names) else str(i)
+            if nm in ignore:
+                continue
+            d = values_differ(p, x, y, ignore, f"{path}.{nm}")
+            if d:
+                return d
+        return None
+    if isinstance(a, Tup):
+        if len(a.fields) != len(b.fields):
+            return f"{path}: tuple arity"
+        for i, (x, y) in enumerate(zip(a.fields, b.fields)):
+            d = values_differ(p, x, y, ignore, f"{path}.{i}")
+            if d:
+                return d
+        return None
+    if isinstance(a, (VecV, SliceRef, Arr)):
+        ca = [c.v if isinstance(c, Cell) else c for c in a.cells]
+        cb = [c.v if isinstance(c, Cell) else c for c in b.cells]
+        if len(ca) != len(cb):
+            return f"{path}: {len(ca)} vs {len(cb)} elements"
+        for i, (x, y) in enumerate(zip(ca, cb)):
+            d = values_differ(p, x, y, ignore, f"{path}[{i}]")
+            if d:
+                return d
+        return None
+    if isinstance(a, BoxV):
+        return values_differ(p, a.cell.v, b.cell.v, ignore, path)
+    if isinstance(a, (StringV, StrRef)):
+        if len(a.chars) != len(b.chars) or any((x != y) if isinstance(x, int) and isinstance(y, int) else (x is not y) for x, y in zip(a.chars, b.chars)):
+            return f"{path}: string {chars_repr(a.chars)[:40]!r} vs {chars_repr(b.chars)[:40]!r}"
+        return None
+    if isinstance(a, Ref):
+        return None
+    if isinstance(a, (int, bool)):
+        return None if a == b else f"{path}: {a} vs {b}"
+    if isinstance(a, z3.ExprRef):
+        return None if a.eq(b) else f"{path}: symbolic {a} vs {b}"
+    if isinstance(a, Opaque):
+        return None if repr(a) == repr(b) else f"{path}: {a!r} vs {b!r}"
+    return None if repr(a) == repr(b) else f"{path}: {repr(a)[:60]} vs {repr(b)[:60]}"
